@@ -396,3 +396,15 @@ package aml
 //@   requires wfTree(tree) && (obj != nil ==> member(tree, obj))
 //@   ensures r == nil || member(tree, r)
 //@   loop 1 (siblingIndex != InvalidIndex) invariant siblingIndex == InvalidIndex || live(tree, siblingIndex)
+
+// popPkgEnd / pushPkgEnd (C12): popping never fails, even on an empty stack (it is then a
+// no-op); after a pop the reader window ends at the new top of the stack if that lies inside
+// the table
+//@ func (p *Parser) popPkgEnd()
+//@   property C12
+//@   requires p != nil && wfD(&p.r) && len(p.pkgEndStack) >= 0
+//@   modifies p.pkgEndStack, p.r.pkgEnd
+//@   ensures count: len(p.pkgEndStack) == ite(old(len(p.pkgEndStack)) == 0, 0, old(len(p.pkgEndStack)) - 1)
+//@   ensures window: len(p.pkgEndStack) > 0 && old(p.pkgEndStack[len(p.pkgEndStack)-2]) <= uint32(len(p.r.data)) ==> p.r.pkgEnd == old(p.pkgEndStack[len(p.pkgEndStack)-2])
+//@   ensures empty: len(p.pkgEndStack) == 0 ==> p.r.pkgEnd == old(p.r.pkgEnd)
+//@   ensures reader: wfD(&p.r) && sameStream(&p.r) && p.r.offset == old(p.r.offset)
